@@ -29,6 +29,9 @@ CLAIMED = {
  "C18": ("GleamGen.tla records the visible value names at every reference (scope stack + module scope + imports); TLC-generated programs replayed into the real completion engine",
          "at every reference of every generated program the completion labels of value kinds offered with the cursor at the end of the identifier must equal the specification's visible set (innermost shadowing = one entry per name), without duplicates, and the replace range must be exactly the identifier; after `module.` the offered set must be exactly the library's public functions and constructors.",
          "field completions after `value.` and empty-hole positions are not yet generated (see DESIGN F12/F14)", "4 C18, 3.3"),
+ "C07": ("GleamGen.tla derives for every declaration the exact set of tokens a rename must rewrite (RenameSet, theorem RenameComplete model-checked by TLC); every TLC-generated program replayed: real rename vs. that set, then re-analysis and rename-back",
+         "for every declaration of every generated program the real rename to a fresh name must return exactly the specification's edit set as whole-identifier, non-overlapping edits (in both modules for library declarations); the edits are applied, the workspace re-analysed and the binding map (go-to-definition at every identifier) and diagnostics compared with the pre-state; renaming back must restore the original text byte for byte.",
+         "generated programs cover locals of every binder form, parameters, functions, constants and library items through qualified/unqualified/aliased imports; record fields and labels are not generated yet", "4 C07, 3.10"),
 }
 NOT_YET = "check not built yet in this revision of /verif (work in progress; see DESIGN.md section 8)"
 
